@@ -1,4 +1,5 @@
 import GqlgenVerif.Lemmas.Ws
+import GqlgenVerif.Model.WsCtx
 /-!
 # C11 — websocket sessions follow the subscription protocol (property theorems)
 
@@ -255,6 +256,69 @@ theorem registry_sections_tie :
 cancel function and sets `c.closed` inside a single critical section (regenerated from websocket.go) -/
 theorem close_section_tie :
     closeSections = [["if c.closed", "c.conn.WriteMessage", "range c.active call value", "c.closed=true"]] := by
+  decide
+
+/-! ## the context an operation runs under (regenerated from `subscribe`, `Gen/WsCtx.lean`)
+
+The model abstracts the context of an operation to `Op.cancelled`, set by `stop` (`stop_cancels_operation`), by
+`close` (`close_cancels_all_active`) and by the operation's epilogue through the function stored in
+`c.active[id]`.  The source fact behind it: for **every** valuation of the `if` conditions of `subscribe` -
+in particular with and without a `connection_init` payload (`c.initPayload != nil`) - once the operation
+goroutine is started, exactly one cancel function has been registered, and every context handed to
+`c.exec.DispatchOperation` and to the response handler descends from the context that function cancels (and
+from the connection context `c.ctx` the InitFunc returned); the deferred epilogue calls it too. -/
+theorem operation_context_under_registered_cancel :
+    ∀ on ∈ WsCtx.valuations Gen.WsCtx.subscribeCtx,
+      WsCtx.wellCancelled (WsCtx.run on Gen.WsCtx.subscribeCtx) = true := by
+  decide
+
+/-- the statement speaks about started operations: some valuation reaches the goroutine, registers a cancel
+function and records the executor's and the response handler's contexts -/
+theorem operation_context_nonvacuous :
+    ∃ on ∈ WsCtx.valuations Gen.WsCtx.subscribeCtx,
+      (WsCtx.run on Gen.WsCtx.subscribeCtx).spawned = true ∧
+      (WsCtx.run on Gen.WsCtx.subscribeCtx).registered.length = 1 ∧
+      (WsCtx.run on Gen.WsCtx.subscribeCtx).opCtx.length ≥ 2 := by
+  decide
+
+/-- the init payload is a dimension of the valuations whenever `subscribe` branches on it: a guarded context
+derivation contributes its condition (so `operation_context_under_registered_cancel` covers both polarities) -/
+theorem guarded_derivations_are_valuated :
+    ∀ e ∈ Gen.WsCtx.subscribeCtx, ∀ c ∈ WsCtx.guardOf e, WsCtx.isMarker c.1 = false →
+      (∃ on ∈ WsCtx.valuations Gen.WsCtx.subscribeCtx, on.contains c.1 = true) ∧
+      (∃ on ∈ WsCtx.valuations Gen.WsCtx.subscribeCtx, on.contains c.1 = false) := by
+  decide
+
+/-- the criterion discriminates: deriving the init-payload context from the context *before*
+`context.WithCancel` (a sibling of the cancellable one) is rejected exactly when a payload is present -/
+example :
+    let evs : List Gen.WsCtx.Ev := [
+      .derive "ctx" "graphql.StartOperationTrace" "c.ctx" none [] false,
+      .derive "opCtx" "graphql.WithOperationContext" "ctx" none [] false,
+      .derive "ctx" "context.WithCancel" "opCtx" (some "cancel") [] false,
+      .derive "ctx" "withInitPayload" "opCtx" none [("c.initPayload != nil", true)] false,
+      .register "msg.id" "cancel" [] false,
+      .spawn,
+      .callCancel "cancel" [("deferred", true)] true,
+      .derive "ctx" "c.exec.DispatchOperation" "ctx" none [] true,
+      .use "responses" "ctx" [("loop", true)] true]
+    WsCtx.wellCancelled (WsCtx.run [] evs) = true ∧
+    WsCtx.wellCancelled (WsCtx.run ["c.initPayload != nil"] evs) = false := by
+  decide
+
+/-- … and so are: no registration, a registration of the wrong cancel function, an operation context that is
+not under the connection context -/
+example :
+    WsCtx.wellCancelled (WsCtx.run [] [
+      .derive "ctx" "context.WithCancel" "c.ctx" (some "cancel") [] false, .spawn,
+      .callCancel "cancel" [("deferred", true)] true,
+      .derive "ctx" "c.exec.DispatchOperation" "ctx" none [] true, .use "responses" "ctx" [] true]) = false ∧
+    WsCtx.wellCancelled (WsCtx.run [] [
+      .derive "a" "context.WithCancel" "c.ctx" (some "cancelA") [] false,
+      .derive "ctx" "context.WithCancel" "c.ctx" (some "cancel") [] false,
+      .register "msg.id" "cancelA" [] false, .spawn,
+      .callCancel "cancelA" [("deferred", true)] true,
+      .derive "ctx" "c.exec.DispatchOperation" "ctx" none [] true, .use "responses" "ctx" [] true]) = false := by
   decide
 
 /-! ## non-vacuity: concrete reachable histories on which the theorems above speak -/
